@@ -399,10 +399,12 @@ func (state *fillState) growDimension() {
 		state.currentIndices[state.currentDimension] = 0
 	}
 	state.currentDimension += 1
+	verifFill("growDimension", state, "", "")
 }
 
 func (state *fillState) exitDimension() {
 	state.currentDimension -= 1
+	verifFill("exitDimension", state, "", "")
 }
 
 func (state *fillState) getCurrentDimensionIndex() int {
@@ -411,15 +413,19 @@ func (state *fillState) getCurrentDimensionIndex() int {
 
 func (state *fillState) growIndex() {
 	state.currentIndices[state.currentDimension-1] += 1
+	verifFill("growIndex", state, "", "")
 }
 
 func (state *fillState) getNewVariableName(name string) string {
+	verifOldName := name
 	if isEllipsis(name) {
 		if state.multipleEllipsis {
 			name = fmt.Sprintf("...[%d]", state.ellipsisCount)
 			state.ellipsisCount += 1
+			verifFill("newName", state, verifOldName, name)
 			return name
 		} else {
+			verifFill("newName", state, verifOldName, "...")
 			return "..."
 		}
 	}
@@ -427,5 +433,6 @@ func (state *fillState) getNewVariableName(name string) string {
 	for i := 0; i < state.currentDimension; i++ {
 		name += fmt.Sprintf("[%d]", state.currentIndices[i])
 	}
+	verifFill("newName", state, verifOldName, name)
 	return name
 }
